@@ -10,6 +10,7 @@ import (
 	"go/types"
 	"os"
 	"path/filepath"
+	"regexp"
 	"sort"
 	"strings"
 	"time"
@@ -166,8 +167,190 @@ func Load(repo string, tags string, whole bool, extraPkgs ...string) (*Ctx, erro
 				fmt.Printf("SIG\t%q: %q,\n", k, sigOf(f))
 			}
 		}
+		for _, tn := range c.moduleTypeNames() {
+			fmt.Printf("TYP\t%q: {shape: %q, fields: []headField{", tn.Pkg().Path()+"."+tn.Name(), typeShape(tn.Type()))
+			if st, ok := tn.Type().Underlying().(*types.Struct); ok {
+				for i := 0; i < st.NumFields(); i++ {
+					fmt.Printf("{%q, %q}, ", st.Field(i).Name(), blankUnexported(types.TypeString(st.Field(i).Type(), nil)))
+				}
+			}
+			fmt.Printf("}},\n")
+		}
 	}
+	c.computeRenames()
 	return c, nil
+}
+
+type headField struct{ name, typ string }
+
+type headType struct {
+	shape  string
+	fields []headField
+}
+
+// rename tables, computed once per load from the reference tables in anchortypes.go: rules are written with the names
+// of the reference tree; a type or field that was merely renamed keeps its reference name in rendered paths.
+var (
+	typeAlias  = map[string]string{}            // current "pkgpath.Name" -> reference "pkgpath.Name"
+	fieldAlias = map[string]map[string]string{} // reference type -> current field name -> reference field name
+)
+
+func blankUnexported(s string) string { return unexportedTypeRe.ReplaceAllString(s, "$1·") }
+
+// typeShape: the underlying type with field names dropped and the module's unexported type names blanked.
+func typeShape(t types.Type) string {
+	if st, ok := t.Underlying().(*types.Struct); ok {
+		var parts []string
+		for i := 0; i < st.NumFields(); i++ {
+			parts = append(parts, blankUnexported(types.TypeString(st.Field(i).Type(), nil)))
+		}
+		return "struct{" + strings.Join(parts, "; ") + "}"
+	}
+	return blankUnexported(types.TypeString(t.Underlying(), nil))
+}
+
+func (c *Ctx) moduleTypeNames() []*types.TypeName {
+	var out []*types.TypeName
+	var paths []string
+	for path := range c.TPkg {
+		if strings.HasPrefix(path, modPath) && !isMockPath(path) {
+			paths = append(paths, path)
+		}
+	}
+	sort.Strings(paths)
+	for _, path := range paths {
+		p := c.TPkg[path]
+		if p.Types == nil {
+			continue
+		}
+		sc := p.Types.Scope()
+		for _, name := range sc.Names() {
+			if tn, ok := sc.Lookup(name).(*types.TypeName); ok && !tn.IsAlias() {
+				out = append(out, tn)
+			}
+		}
+	}
+	return out
+}
+
+// funcAlias: renamed unexported functions / methods -> their reference name (computed after the type tables)
+var funcAlias = map[*ssa.Function]string{}
+
+// fname renders a function the way the reference tree names it.
+func fname(f *ssa.Function) string {
+	s := f.String()
+	for cur, ref := range typeAlias {
+		if strings.Contains(s, cur) {
+			s = strings.ReplaceAll(s, cur, ref)
+		}
+	}
+	if old, ok := funcAlias[f]; ok && strings.HasSuffix(s, "."+f.Name()) {
+		s = s[:len(s)-len(f.Name())] + old
+	}
+	return short(s)
+}
+
+func (c *Ctx) computeFuncRenames() {
+	funcAlias = map[*ssa.Function]string{}
+	have := map[string]bool{}
+	for _, f := range c.Funcs {
+		if k := sigKey(f); k != "" {
+			have[k] = true
+		}
+	}
+	for key := range anchorSigs {
+		if have[key] {
+			continue
+		}
+		if f := c.renamedAnchor(key); f != nil {
+			funcAlias[f] = key[strings.LastIndex(key, ".")+1:]
+		}
+	}
+}
+
+func (c *Ctx) computeRenames() {
+	defer c.computeFuncRenames()
+	typeAlias = map[string]string{}
+	fieldAlias = map[string]map[string]string{}
+	cur := map[string]*types.TypeName{}
+	byPkg := map[string][]*types.TypeName{}
+	for _, tn := range c.moduleTypeNames() {
+		cur[tn.Pkg().Path()+"."+tn.Name()] = tn
+		byPkg[tn.Pkg().Path()] = append(byPkg[tn.Pkg().Path()], tn)
+	}
+	// renamed types: a reference type that is gone, and exactly one new unexported type of the same package and shape
+	for ref, ht := range headTypes {
+		if _, still := cur[ref]; still {
+			continue
+		}
+		pkg := ref[:strings.LastIndex(ref, ".")]
+		var cands []*types.TypeName
+		for _, tn := range byPkg[pkg] {
+			full := pkg + "." + tn.Name()
+			if _, known := headTypes[full]; known || tn.Exported() {
+				continue
+			}
+			if typeShape(tn.Type()) == ht.shape {
+				cands = append(cands, tn)
+			}
+		}
+		if len(cands) == 1 {
+			typeAlias[pkg+"."+cands[0].Name()] = ref
+			cur[ref] = cands[0]
+		}
+	}
+	// renamed fields: within a type, a reference field that is gone and exactly one new field of the same type
+	for ref, ht := range headTypes {
+		tn := cur[ref]
+		if tn == nil {
+			continue
+		}
+		st, ok := tn.Type().Underlying().(*types.Struct)
+		if !ok {
+			continue
+		}
+		now := map[string]string{}
+		for i := 0; i < st.NumFields(); i++ {
+			now[st.Field(i).Name()] = blankUnexported(types.TypeString(st.Field(i).Type(), nil))
+		}
+		refNames := map[string]bool{}
+		for _, hf := range ht.fields {
+			refNames[hf.name] = true
+		}
+		for _, hf := range ht.fields {
+			if _, still := now[hf.name]; still {
+				continue
+			}
+			var cands []string
+			for name, typ := range now {
+				if !refNames[name] && typ == hf.typ {
+					cands = append(cands, name)
+				}
+			}
+			if len(cands) == 1 {
+				if fieldAlias[ref] == nil {
+					fieldAlias[ref] = map[string]string{}
+				}
+				fieldAlias[ref][cands[0]] = hf.name
+			}
+		}
+	}
+}
+
+// refTypeName: the reference name of a named module type ("" if t is not one).
+func refTypeName(t types.Type) string {
+	if p, ok := t.(*types.Pointer); ok {
+		t = p.Elem()
+	}
+	n, ok := t.(*types.Named)
+	if !ok || n.Obj().Pkg() == nil {
+		return ""
+	}
+	full := n.Obj().Pkg().Path() + "." + n.Obj().Name()
+	if ref, renamed := typeAlias[full]; renamed {
+		return ref
+	}
+	return full
 }
 
 // sigKey names an unexported top-level function or method of the module: "<package>.<name>" or
@@ -183,16 +366,25 @@ func sigKey(f *ssa.Function) string {
 			t = p.Elem()
 		}
 		if n, ok := t.(*types.Named); ok {
-			return rel + ".(" + n.Obj().Name() + ")." + f.Name()
+			name := n.Obj().Name()
+			if ref := refTypeName(n); ref != "" {
+				name = ref[strings.LastIndex(ref, ".")+1:]
+			}
+			return rel + ".(" + name + ")." + f.Name()
 		}
 		return ""
 	}
 	return rel + "." + f.Name()
 }
 
+// sigOf renders a signature with the module's unexported type names blanked (a renamed helper type does not change
+// what a function is).
 func sigOf(f *ssa.Function) string {
-	return types.TypeString(f.Signature, func(p *types.Package) string { return p.Path() })
+	s := types.TypeString(f.Signature, func(p *types.Package) string { return p.Path() })
+	return unexportedTypeRe.ReplaceAllString(s, "$1·")
 }
+
+var unexportedTypeRe = regexp.MustCompile(`(github\.com/trustbloc/sidetree-go/[A-Za-z0-9_/.-]*\.)[a-z][A-Za-z0-9_]*`)
 
 // renamedAnchor: the function recorded under key on the reference tree is gone; if exactly one unexported function of
 // the same package (and receiver type) has the recorded signature and a name the reference tree did not have, it is
@@ -321,6 +513,11 @@ func (c *Ctx) MethodIn(pkg, typ, name string) *ssa.Function {
 	}
 	t := sp.Type(typ)
 	if t == nil {
+		if cn := renamedTypeName(pkg, typ); cn != "" {
+			t = sp.Type(cn)
+		}
+	}
+	if t == nil {
 		return nil
 	}
 	for _, ty := range []types.Type{t.Type(), types.NewPointer(t.Type())} {
@@ -340,7 +537,27 @@ func (c *Ctx) NamedType(rel, name string) *types.Named {
 	return c.NamedTypeIn(modPkg+rel, name)
 }
 
+// renamedTypeName: the current name of the reference type pkg.name when it was renamed ("" otherwise).
+func renamedTypeName(pkg, name string) string {
+	for curFull, ref := range typeAlias {
+		if ref == pkg+"."+name {
+			return curFull[strings.LastIndex(curFull, ".")+1:]
+		}
+	}
+	return ""
+}
+
 func (c *Ctx) NamedTypeIn(pkg, name string) *types.Named {
+	if n := c.namedTypeIn(pkg, name); n != nil {
+		return n
+	}
+	if cn := renamedTypeName(pkg, name); cn != "" {
+		return c.namedTypeIn(pkg, cn)
+	}
+	return nil
+}
+
+func (c *Ctx) namedTypeIn(pkg, name string) *types.Named {
 	p := c.TPkg[pkg]
 	if p == nil || p.Types == nil {
 		return nil
